@@ -294,6 +294,15 @@ def loops_complete(ck, ctx, rule, table):
             errs = {eb for eb, _ in err_return_blocks(ctx, b)}
             # an exit that can only end in an error return is fine (errs = the blocks that build the Err value)
             bad = [e_ for e_ in (bad or []) if not (errs and e_[2] not in errs and not (set(cfg.returns()) & cfg.reach_avoid([e_[2]], avoid_blocks=list(errs))) or e_[2] in errs)]
+            # ... and nothing is dropped before the loop sees it: the iterator handed to next() has no skipping/limiting/reversing adapter
+            R_ = ctx.res(b)
+            adapters = []
+            loop_ = cfg.natural_loop(h)
+            for nb, nt in b.calls():
+                if nb in loop_ and callee_of(nt).endswith(("Iterator>::next", "range::next")) and cfg.enclosing_loop_header(nb) == h:
+                    src_ = R_.arg(nb, 0)
+                    adapters += [c[1].split("::")[-1] for c in calls_in(src_) if ("Iterator" in c[1] or c[1].startswith(("core::slice::", "std::iter::"))) and c[1].endswith(LIMITING_ADAPTERS)]
+            ck.ob(rule, "%s|loop-whole|%s#%d" % (fn, anchor.split("::")[-1], len(seen_h) - 1), not adapters, "the loop over %s in %s iterates the whole sequence (limiting adapters: %s)" % (what, fn.split("::")[-1], adapters or "none"), span=b.blocks[bb]["term"]["loc"], fn=fn)
             ck.ob(rule, "%s|loop-complete|%s#%d" % (fn, anchor.split("::")[-1], len(seen_h) - 1), bad == [], "the loop over %s in %s ends only at exhaustion or with an error (other exits: %s)" % (what, fn.split("::")[-1], bad), span=b.blocks[bb]["term"]["loc"], fn=fn)
         ck.functions.add(fn)
 
@@ -303,7 +312,30 @@ def iter_source_calls(e):
     return {c[1] for c in calls_in(e)}
 
 
-LIMITING_ADAPTERS = ("::take", "::skip", "::filter", "::step_by", "::rev", "::take_while", "::skip_while", "::filter_map", "::nth", "::last", "::split_first", "::split_last", "::first", "::get")
+LIMITING_ADAPTERS = ("::take", "::skip", "::filter", "::step_by", "::take_while", "::skip_while", "::filter_map", "::nth", "::last", "::split_first", "::split_last", "::first", "::get")
+
+
+DROPPING_ADAPTERS = ("::take", "::skip", "::filter", "::step_by", "::take_while", "::skip_while", "::filter_map", "::nth", "::last", "::skip_last", "::dedup", "::dedup_by_key", "::truncate", "::split_off", "::drain")
+# element-dropping adapters that exist today, confirmed by reading: the status display shows at most 8 running tasks
+ADAPTER_SITES = {"progress_fancy::FancyState::print_progress": ["take"]}
+
+
+def adapter_census(ck, ctx, rule, prefixes):
+    """WHO: in the functions of the given modules no iteration silently drops elements: element-dropping iterator / vector adapters
+    (take, skip, filter, step_by, nth, ...) appear only at the sites confirmed by reading (ADAPTER_SITES)"""
+    F = ctx.F
+    seen = {}
+    n = 0
+    for b in F.view_bodies():
+        if b.expn or not b.nname.startswith(prefixes):
+            continue
+        n += 1
+        for bb, t in b.calls():
+            c = callee_of(t)
+            if ("Iterator" in c or c.startswith(("core::slice::", "std::iter::", "std::slice::", "std::vec::Vec::", "std::collections::VecDeque::"))) and c.endswith(DROPPING_ADAPTERS):
+                seen.setdefault(F.owner(b.nname), []).append(c.split("::")[-1])
+    bad = {k: sorted(v) for k, v in seen.items() if sorted(v) != sorted(ADAPTER_SITES.get(k, []))}
+    ck.ob(rule, "no-element-dropping-iteration|%s" % "+".join(p.rstrip(":") for p in prefixes), not bad and n > 0, "no loop in %s silently drops elements (take/skip/filter/step_by/nth/... appear only where confirmed: %s); unexpected: %s" % (list(prefixes), ADAPTER_SITES, bad or "none"), span=None)
 
 
 def iter_is_whole(e):
